@@ -49,7 +49,7 @@ class C19(Prop):
             "futures and year 1970..2099 (12 480 contracts): expiry, last trading date and symbol compared exactly with "
             "the model and with the rule computed from the standard library; plus chain spans: all built-in classes, "
             "random (start, end) month pairs inside 1970..2099 including the full span, listing / ordering / unique "
-            "symbols / discontinuation events. Non-trivial = every case (each covers a whole class or a whole chain); "
+            "symbols / discontinuation events, the latter two also with the shared simulation clock moved inside and past the span. Non-trivial = every case (each covers a whole class or a whole chain); "
             "distinct = distinct (class) / (class, span)")
     assumptions = [
         "pandas.date_range month/quarter-end enumeration is modelled (listing) and compared, not trusted",
@@ -116,6 +116,27 @@ class C19(Prop):
         evs = ch.make_events()
         if [(e.time, e.contract.symbol) for e in evs] != list(zip(exps, syms)):
             r.fail("chain-events", cls=name)
+        # "exactly one discontinuation event per contract" whatever the shared simulation clock shows: the clock is a
+        # class attribute left wherever the previous environment of the process stopped
+        saved = tc.AbstractContract.now
+        try:
+            mid = start + (end - start) / 2
+            for label, clock in (("mid-span", mid), ("after-span", end + dt.timedelta(days=400)),
+                                 ("on-an-expiry", exps[len(exps) // 2] if exps else mid)):
+                clock = clock.to_pydatetime() if hasattr(clock, "to_pydatetime") else clock
+                tc.AbstractContract.now = clock
+                evs2 = ch.make_events()
+                if [(e.time, e.contract.symbol) for e in evs2] != list(zip(exps, syms)):
+                    r.fail("chain-events", cls=name, clock=label, events=len(evs2), contracts=len(syms),
+                           clause="exactly one discontinuation event per contract stamped at its expiry")
+                    break
+                ch2 = tc.FutureChain(cls, start, end)
+                if [c.symbol for c in ch2.contracts] != syms:
+                    r.fail("chain-listing", cls=name, clock=label, theorem="listing",
+                           clause="a chain built over a span lists its contracts (whatever the clock shows)")
+                    break
+        finally:
+            tc.AbstractContract.now = saved
         # the listing: contract months whose month end lies in the span, at the class's frequency
         want = []
         y, m = y1, m1
